@@ -65,6 +65,10 @@ CHECKS = {
    text="Seeded exploration with a structural ClientHello generator (the JA3 string and MD5 are computed from the generated structure per the JA3 specification, never by parsing bytes): hellos with legacy versions SSL3..TLS1.2, GREASE in suites/extensions/groups, unknown, repeated and empty-bodied extensions, 0-3 point formats and one of three server names are sent to the real https service on separate connections, a few interleaved at a time, under record-layer fragmentation x stream segmentation x client abort (close/reset) right after the hello; GREASE-only variants of earlier hellos must get the same digest. Every https event of the connection must carry the reference digest and the SNI sent.",
    ref="§3 C13", tech=TECH + "generator-as-oracle JA3 over events recorded under record fragmentation, stream segmentation and client-abort faults",
    note="The digest itself is a pure function of the hello; what the simulator decides is that the vendored TLS stack's record/handshake reassembly delivers the same hello to it under every fragmentation, segmentation and abort."),
+ "C11": dict(
+   text="Seeded exploration: 1-3 logged-in FTP sessions on one service instance (interleaved by the choice tape) issue directory, file and transfer commands with path arguments over {a, b, .., ., '', /} up to 5 components plus odd/long paths that name a sentinel tree planted beside the service root on the real temp filesystem; transfers run over passive data connections on the simulated transport, some reset mid-transfer. Oracle: the sentinel tree (everything outside the root) is byte-identical and has neither lost nor gained entries; no reply or transferred data contains sentinel names or contents; every PWD reply is a rooted path without dot-dot components.",
+   ref="§3 C11", tech=TECH + "sentinel-tree oracle on the real temp filesystem + reply/transfer content check; interleaved sessions and data-connection reset faults",
+   note="Path mapping is sequential logic: the simulator contributes the shared-instance interleavings and the transfer faults; symlinks leaving the root are assumed absent."),
 }
 NA = {
  "C17": "pure functions of a byte buffer (decoder methods, ipp decode/encode): no schedule, clock, fault or interleaving to simulate (DESIGN §4)",
